@@ -95,16 +95,21 @@ theorem turnPacket_safe (packet : Array UInt8) (peerKnown : Bool) (b : Buf) :
   all_goals (try (apply stunDecode_safe _ (by omega); intro r n' hr; simp only [not_true_eq_false, if_false]; cur_auto))
   all_goals (try (apply handlePacketClass_safe _ (by omega); intro r; cur_auto))
 
-theorem turnTcpRecv_safe (bufLen len : Nat) (reads : List Nat) (b : Buf) (n : Nat) :
-    safe (· ≤ n) (turnTcpRecv bufLen len reads) (fun r _ n' => r = len ∧ r ≤ bufLen ∧ n' = n) b n := by
-  unfold turnTcpRecv
+theorem turnTcpRecv_safe (bufLen : Nat) (b : Buf) (n : Nat) :
+    safe (· ≤ n) (turnTcpRecv bufLen) (fun r _ n' => r ≤ bufLen ∧ n' = n) b n := by
+  unfold turnTcpRecv turnTcpTail readExact
   cur_auto
-  apply safe_loop (fun s _ n' => n' = n ∧ s.1 ≤ len) (fun s _ => len - s.1)
-  · intro s b' n' hinv
-    unfold turnTcpBody
-    cur_auto
-  · exact ⟨rfl, by domega⟩
-  · domega
+
+theorem tcp4571Recv_safe (bufLen : Nat) (b : Buf) (n : Nat) :
+    safe (· ≤ n) (tcp4571Recv bufLen) (fun r _ n' => r ≤ bufLen ∧ n' = n) b n := by
+  unfold tcp4571Recv readExact
+  cur_auto
+
+theorem sharedTcpFirstFrame_safe (b : Buf) :
+    safe (· ≤ 1500) sharedTcpFirstFrame (fun r _ n' => r ≤ 1500 ∧ n' ≤ 1500) b 0 := by
+  unfold sharedTcpFirstFrame readExact
+  simp only [c07MaxStunMessage_val]
+  cur_auto
 
 theorem unwrapRtx_safe (payload : Array UInt8) (b : Buf) (n : Nat) :
     safe (· ≤ n) (unwrapRtx payload) (fun _ _ n' => n' = n) b n := by
